@@ -27,7 +27,7 @@ class C06(scen.WorldProp):
                 "Wheatley.C06.udi_back_start",
                 "Wheatley.C06.opening_row_rung",
                 "Wheatley.startNextRow_ctl",
-                "Wheatley.C06.cli_up_down_in"]
+                "Wheatley.C06.cli_up_down_in", "Wheatley.C06.opening_row_until_go", "Wheatley.C06.opening_row_is_rung"]
     # the command line: what of the built configuration this property is about
     cli_fields = ['udi']
     level_text = ("theorems: Go arms the counter by stroke parity, the method starts at the least later row of the "
